@@ -95,6 +95,20 @@ CHECKS.update({
          "a hang is reported only when the heartbeat stalls for 30s and two goroutine dumps show the worker inside a dials frame; inputs with NUL reach the env chain via parse.String only",
          "DESIGN.md section 4 C16"),
 })
+CHECKS.update({
+ 'C17': ("runtime convergence monitor on real files and the real fsnotify watcher: seeded file-operation histories with sync points, gates and delays at the file.read hook, state-based convergence verdicts (view match, or three goroutine dumps showing an idle watcher with unchanged serial), identical-replace version counting, release audit (goroutines and inotify descriptors); race detector",
+         "Thousands of seeded histories over {truncate-and-rewrite in chunks, write-temp+rename, Kubernetes AtomicWriter symlink swaps, delete+recreate, identical bytes in place and atomically, malformed and empty content, reverts, sync points} on plain, symlinked and k8s layouts with JSON and YAML decoders run against real WatchingSources; once operations stop the view must equal the config decoded from the final bytes (or stay at an admissible earlier valid content with a DecoderErr delivered), identical atomic replaces between sync points must add no version, and after cancel the watcher goroutines and inotify descriptors must be gone. Non-convergence is a violation only with the watcher provably idle; otherwise inconclusive.",
+         "one filesystem and kernel (the sandbox's); pauses up to tens of ms; the fsnotify-internal data race (third-party, no dials or harness frame) is recorded in evidence, not judged",
+         "DESIGN.md section 4 C17; notes/C17-FINDINGS.md, notes/C17-SENSITIVITY.md"),
+ 'C18': ("runtime precedence/verification monitor around the real ez entry points: reference stack over four layers, Verify call log with a file-marker leaf, Events/global-callback emptiness check after return, error-path checks, watched rewrite re-check; race detector",
+         "Every ez entry point (four formats and by-extension) is run on a static 10-leaf config whose leaves are assigned to seeded subsets of {default, file, env, flag} with distinct values, the path coming from default, env or flag, with std-flag / pflag FlagSource sets and the default flag.CommandLine path (re-created per case, sometimes called twice), with and without watching; the first view must follow default<file<env<flag, Verify must run at least once and only on configs that include the file layer, Events and the global callbacks must not expose the intermediate config, configs valid only with the file must succeed, missing/malformed/empty-path files and a failing Verify must return (wrapping) errors, and after a watched rewrite precedence, verification on the full stack and OnNewConfig delivery are re-checked.",
+         "the worker's own process environment is used (cleared per case); convergence after a watched rewrite is awaited by state with a watchdog (expiry = inconclusive; C17 judges convergence itself)",
+         "DESIGN.md section 4 C18"),
+ 'C20': ("runtime twin-run differential (wrapped vs native source on the same layer history) with fake inner sources that produce the translated type they are asked for, error-propagation probes, and an exhaustive Blank SetSource/Done sequence model check; race detector",
+         "The same initial value and 1-10 updates are played through NewTransformingSource with seven mangler lists (none, set-slice, duration, reformat, the ez file chain, the flag and env chains) and into a reference Dials; views must be equal after every step; inner Value/Watch failures must fail Config with a wrapped error, inner ReportError must reach OnWatchedError, and an update whose reverse translation fails must be returned to the inner source with the view unchanged; transforming decoders are compared on JSON documents; every Blank SetSource/Done sequence up to length 4 (340 sequences) plus seeded longer ones is checked against a small model including Done forwarding (monitor exit), refusal to replace a watcher, delegation of Value, and continued delivery of a watching inner's updates after the SetSource context ended.",
+         "fake inner sources and forward conversions are harness code; a Blank inside a transforming source is not generated",
+         "DESIGN.md section 4 C20"),
+})
 NOT_YET = "check not yet built in this session (planned in DESIGN.md section 4; the technique applies)"
 
 def main():
